@@ -29,6 +29,11 @@ type ClientConn struct {
 	conn     net.Conn
 	handlers []resHandler
 
+	// heads records, for each response still to be parsed and in request
+	// order, whether its request was a HEAD: such a response has no body
+	// whatever its framing fields say.
+	heads []bool
+
 	closed bool
 
 	onClose func()
@@ -98,6 +103,7 @@ func (c *ClientConn) closeWithErrorWithoutLock(err error) {
 		h.h(nil, c.conn, err)
 	}
 	c.handlers = nil
+	c.heads = nil
 	if c.conn != nil {
 		nbc, ok := c.conn.(*nbio.Conn)
 		if !ok {
@@ -117,6 +123,21 @@ func (c *ClientConn) closeWithErrorWithoutLock(err error) {
 	if c.onClose != nil {
 		c.onClose()
 	}
+}
+
+// nextIsHead reports whether the response that is being parsed now answers a
+// HEAD request.
+//
+//go:norace
+func (c *ClientConn) nextIsHead() bool {
+	c.mux.Lock()
+	defer c.mux.Unlock()
+	if len(c.heads) == 0 {
+		return false
+	}
+	head := c.heads[0]
+	c.heads = c.heads[1:]
+	return head
 }
 
 //go:norace
@@ -182,6 +203,7 @@ func (c *ClientConn) Do(req *http.Request, handler func(res *http.Response, conn
 	var confTimeout = c.Timeout
 
 	c.handlers = append(c.handlers, resHandler{c: c.conn, t: time.Now(), h: handler})
+	c.heads = append(c.heads, req.Method == http.MethodHead)
 
 	var deadline time.Time
 	if confTimeout > 0 {
